@@ -25,6 +25,7 @@
 (*   "SortNamesInPlace"   Assemble sorts the caller's Names                *)
 (*   "AppendSharedTail"   Assemble appends into spare capacity of Syscalls *)
 (*   "PackageCache"       a package-level cache written by Assemble        *)
+(*   "SharedTextBytes"    MarshalText hands every caller the same slice    *)
 (*                                                                         *)
 (* Determinism: text forms iterate over maps; iteration order is a         *)
 (* nondeterministic permutation.  FlagString is modelled both ways: the    *)
@@ -64,6 +65,11 @@ Steps(op, g) ==
     [] op = "GetInfo" -> << R(<<"pkg", "arches">>) >>
     [] op = "ActionString" -> << R(<<"pkg", "actionNames">>) >>
     [] op = "FlagString" -> << R(<<"pkg", "filterFlagNames">>) >>
+    \* MarshalText returns bytes the caller may write into (append): they are the caller's own, freshly allocated - unless
+    \* "SharedTextBytes" (a seeded change): one precomputed slice per named value, with spare capacity, handed to every caller
+    [] op = "MarshalText" ->
+         << R(<<"pkg", "actionNames">>) >>
+         \o (IF "SharedTextBytes" \in Dev THEN << Wr(<<"pkg", "textbytes">>) >> ELSE << Wr(<<"own", g>>) >>)
     [] op = "Unpack" -> << R(<<"pkg", "actionNames">>), R(<<"pkg", "operations">>) >>
 
 \* the whole step sequence of goroutine g
@@ -94,7 +100,7 @@ NoConflict == ~Conflict
 \* the caller's policy (exported fields, backing arrays incl. capacity tail) and
 \* package state are never written; only the value's own arch cache is
 InputUnchanged ==
-  \A w \in writes : w[2][1] = "arch" /\ w[2][2] = w[1]
+  \A w \in writes : w[2][1] \in {"arch", "own"} /\ w[2][2] = w[1]
 \* goroutines do not influence each other: nothing one writes is read or written by another
 Isolated ==
   \A w \in writes : \A g \in G \ {w[1]} : <<g, w[2]>> \notin reads /\ <<g, w[2]>> \notin writes
